@@ -66,6 +66,30 @@ def r1(ctx):
     ctx.floor(rule, len(built), "C15.R1.constructors")
     # unsigned only below a non-negative lower bound: every path to a U64 construction takes the true edge of `min >= 0`
     cmps = [c for c in F.comparisons(b, O) if c.switch_bb is not None and c.kind == "b" and c.boundary == 0 and c.rhs == "" and "min(" in c.lhs]
+    # the same test written with a combinator: `min.map_or(true, |v| v >= 0)`, `min.is_none_or(|v| v >= 0)`, `!min.is_some_and(|v| v < 0)`
+    if not cmps:
+        class _C:
+            pass
+        for sbb, t in b.switches():
+            ex = F.strip_casts(O.switch_cond(sbb))
+            neg = False
+            while ex[0] == "un" and ex[1] == "Not":
+                ex = F.strip_casts(ex[2])
+                neg = not neg
+            if not (ex[0] == "call" and X.last_seg(ex[1] or "") in ("map_or", "is_some_and", "is_none_or") and "min(" in X.render(ex[3][0])):
+                continue
+            for a in ex[3][1:]:
+                if a[0] == "agg" and a[1] == "closure":
+                    cb = P.bodies.get("%s::%s" % (b.crate, a[2]))
+                    if cb is None:
+                        continue
+                    for c in F.comparisons(cb, X.Origins(cb, P)):
+                        if c.kind == "b" and c.boundary == 0 and c.rhs == "":
+                            pc = _C()
+                            pc.switch_bb = sbb
+                            pc.raw = "%s(.., |v| %s)" % (X.last_seg(ex[1]), c.raw)
+                            pc.nop = c.nop if not neg else {"Ge": "Lt", "Gt": "Le", "Lt": "Ge", "Le": "Gt"}.get(c.nop, c.nop)
+                            cmps.append(pc)
     u64_blocks = set()
     for bb, j, s in b.all_statements():
         if s["k"] == "assign" and s["rv"]["k"] == "agg" and s["rv"].get("adt", "").endswith("RustType") and s["rv"].get("variant") == "U64":
